@@ -98,5 +98,13 @@ package erro
 // CauseBy/Cause only walk the chain (no side effects).
 //@ trusted func CauseBy
 //@   pure
-//@ trusted func Cause
+// Cause walks exactly one step of the chain: the Cause() of a Traceable error, nil for anything else
+//@ uninterp func cause_of(e error) error
+//@ extern func (github.com/tencent/goom/erro.Traceable).Cause
 //@   pure
+//@   ensures names_it: result == cause_of(iface_of(self))
+//@ func Cause
+//@   props C13
+//@   assigns nothing
+//@   ensures one_step_for_traceables: err != nil && implements(err, Traceable) ==> result == cause_of(err)
+//@   ensures chain_ends_at_anything_else: err == nil || !implements(err, Traceable) ==> result == nil
